@@ -14,17 +14,22 @@ PROP = dict(
     rule="text states generated field by field from the repo's protobuf types (formatting 0-12 and beyond incl. random int32, "
          "pair modes, icons, scale types with sane/degenerate/reversed/extreme ranges, fonts 0-3 and random, sizes, padding 0-3, "
          "spacing, empty/long/non-ASCII strings, extreme integers, 0-40 index colours and RGB colours, absent sub-messages) x tile "
-         "geometries 0x0..256x64 x shrink 0-3 x border 0-3; each state is rendered twice (determinism) and once with Inverted "
-         "flipped; 12% of the cases are bar-monotonicity pairs, 25% centring cases; non-trivial = the image has both lit and dark "
-         "pixels; distinct = distinct record text",
+         "geometries 0x0..256x64 and beyond (up to 320x100) x shrink 0-3 and arbitrary integers (negative, > 3, +-2^31) x border 0-3, "
+         "large (4..1000, half the tile) and negative; every state is rendered in the order A, B, A, B (B = the same state in the "
+         "other font face of the same cell width; both A's and both B's must agree: images, RGB exports, colours) and once with "
+         "Inverted flipped; the argument after the call is printed and compared with the model's filled form; every 6th state "
+         "and every small tile also prints the RGB565 export; 12% of the cases are bar-monotonicity pairs (hidden value or a "
+         "float format whose printed text is the same at both values; any pair mode, icons, limits), 25% centring cases; "
+         "non-trivial = the image has both lit and dark pixels; distinct = distinct record text",
     trusted_base=["IEEE-754 double division/multiplication and fmt %.Nf are modelled with integers (Base/Dbl.lean) and validated by the correspondence",
                   "Go `range string` rune decoding done by the harness (language runtime)"],
-    assumptions=["TitleBarPadding within its documented 2-bit range 0-3 (it is used unmasked: 2^32-1 rows would loop for hours; outside the property's domain 'fields in their documented ranges')",
-                 "tile width/height >= 0"],
+    assumptions=["TitleBarPadding within its documented 2-bit range 0-3 (it is used unmasked: tile_work_padding_witness proves that 10^9 costs more than 10^11 loop iterations; outside the property's domain 'fields in their documented ranges')",
+                 "tile width/height >= 0 (renderTileC_negative: `make` panics for a negative size)",
+                 "the centring clause is demanded for border >= 0 and for line(s) that fit the active height only (a negative border is outside every documented range; the property text speaks of texts that fit vertically; centre_needs_vertical_fit_counterexample); the other clauses are checked for all cases"],
 )
 
 CLAIM = dict(
-    text="The complete layout logic of WriteDisplayTileNew is modelled as a pure function to a list of canvas operations (Model/Tile.lean) and agrees with the real renderer on every generated state (bytes, colours, inverted twin, bar pairs). Lean theorems for every text state and geometry: tile_size_ok (exact size), tile_active_ok (no pixel outside the active area left by shrink and border differs from the blank value — from the C16 frame theorem applied to every emitted operation), tile_colours_ok (RGB565 export colours are the requested ones), tile_inversion_ok (the inverted rendering is exactly the complement: the operation list does not depend on Inverted and every primitive maps complementary canvases to complementary canvases), box_centred_within_one (centring arithmetic), total/deterministic by construction with the table-index guards proved. bar_monotone: for every text state, geometry, range with 0 < int32(high-low) and values v <= v2, Spec.Tile.checkBar holds of the two renderings (every lit pixel stays lit; from monotonicity of the correctly rounded double division, multiplication and truncation, Lemmas/DblMono.lean, and a lit-subset relation preserved by every primitive, Lemmas/MonoSub.lean); bar_length_in_extent; bar_reversed_range_counterexample shows the range guard is needed. centre_ok_partial: the ink-based centring clause (Spec.Tile.centreOk) for formats 10/11 when every text box lies inside the active area (TileTextFits; per-glyph edge-ink facts over the regenerated fonts); for clipped texts the clause is checked on the real renderer's output on every run but not proved.",
+    text="The complete layout logic of WriteDisplayTileNew is modelled as a pure function to a list of canvas operations (Model/Tile.lean) and agrees with the real renderer on every generated state (bytes, colours, inverted twin, bar pairs, the argument after the call, the RGB565 export where printed). Lean theorems for every text state and geometry: tile_total (the checked form of the whole call - every slice access of the layout and of the drawing is `[i]?`: colour table, icon table, font tables, canvas bytes, bitmap slices - returns the plain model's canvas and colours, i.e. no panic; with tile_layout_total, colour_index_guarded, icon_index_guarded; colour_index_pinned_counterexample for the pinned tree), tile_work_bound (no hang: at most w(1+h)+1522L+62w+900 loop iterations when TitleBarPadding <= 3; tile_work_padding_witness: more than 10^11 iterations for the legal uint32 value 10^9 - the field is used unmasked), tile_size_ok (exact size), tile_active_ok (no pixel outside the active area left by shrink and border differs from the blank value - from the C16 frame theorem applied to every emitted operation), tile_inversion_ok (the inverted rendering is exactly the complement), tile_colours_ok (RGB565 colours are the requested ones; the Spec side is a band table / a `[k]?` look-up in the regenerated colour table / the documented 5-6-5 expansion, proved equal to the code's arithmetic: mapConstrain_q2, color6_idx, color565_eq), tile_export (the same on the bytes GetImgSliceRGB returns, composed with C17's sliceRGB_size/sliceRGB_pixel), tile_argument_ok (after the call the argument differs from before only by absent -> empty sub-messages; tile_argument_idempotent; tile_second_call_same), box_centred_within_one, centre_ok (the ink-based centring clause Spec.Tile.centreOk with no hypothesis beyond the Spec's own domain - strings without LF/CR and with alphanumeric ends: the Spec's guard [formats 10/11, proportional, spacing 0, border >= 0, the line(s) fit the active height measured with the renderer's own LineHeight()] gives linesFit on the inputs; a text that fits horizontally is centred by fits_of_arith/text_ink_extent, a too-wide text starts at the left edge and shows nothing or ink in the left-most active column, text_left_touch; centre_needs_vertical_fit_counterexample: without the vertical-fit guard the clause is false of a 64x4 two-line tile whose second line is 'j', on the model and on the real renderer; tile_check = all clauses of Spec.Tile.check together), deterministic by construction (function of its inputs; harness renders A,B,A,B). bar_monotone: for every text state, geometry, range with 0 < int32(high-low) and values v <= v2 with the same value text, Spec.Tile.checkBar holds of the two renderings; bar_covered: for a value text that changes, everything the scale section draws at v is lit in the image at v2 (bar_layer_monotone + bar_layer_in_image, no late drawAllPixels icon); bar_span_monotone: for scale types 1, 2, 3 both edges of the filled rectangle are monotone in the value (bar_span_drawn ties it to the model's operation list); bar_reversed_range_counterexample shows the range guard is needed.",
     note=TB + "Float formatting and bar arithmetic modelled with exact integer arithmetic, trusted to equal Go's IEEE-754 behaviour as far as the correspondence shows.",
-    technique="Lean 4 proof (layout as pure function to an operation list + C16 frame calculus) + model/implementation correspondence",
+    technique="Lean 4 proof (layout as pure function to an operation list + C16 frame calculus + checked/tick-counting mono model) + model/implementation correspondence",
 )
